@@ -90,10 +90,18 @@ Theorem C08_failed_attempt_frame_refuted :
 Proof. exact frame_refuted. Qed.
 Print Assumptions C08_failed_attempt_frame_refuted.
 
-(* Strongest true statement: the ENTIRE state is unchanged by a failed attempt whose configuration does
-   not reach one of the four leaks: no `on` hooks (unless the attempt comes through SIGUSR1), no htpasswd
-   line, and — unless it is a mere validation — no log roller and no listener opened before the failing
-   one.  [wf] (nobody serves the foreign address) holds in every reachable state, see 8. *)
+(* Strongest true statement: the ENTIRE state is unchanged by a failed attempt that does not REACH one of
+   the four leaks.  [reached c] is the part of the configuration an attempt can execute (nothing of a
+   configuration that does not parse; of one with a bad directive only the directives before it, minus
+   the startup callbacks they merely schedule); in it: no `on` hooks (unless the attempt comes through
+   SIGUSR1), no htpasswd line, and — unless the attempt ends after the directives (validate, execute) —
+   no log roller and no listener opened before the failing one.  [wf] (nobody serves the foreign
+   address) holds in every reachable state, see 8. *)
+Theorem C08_attempt_depends_only_on_what_it_reaches :
+  forall m step e c g, attempt m step e c g = attempt m step e (reached c) g.
+Proof. exact attempt_reached. Qed.
+Print Assumptions C08_attempt_depends_only_on_what_it_reaches.
+
 Theorem C08_failed_attempt_frame_partial :
   forall m step e c g r g',
   wf g -> harmless m c = true -> attempt m step e c g = (r, g') -> r <> ROk -> g' = g.
@@ -102,6 +110,9 @@ Print Assumptions C08_failed_attempt_frame_partial.
 
 Example C08_failed_attempt_frame_partial_nonvacuous :
   harmless Load (mkcfg 1 [EBad] [AEph 1]) = true /\
+  harmless Load {| c_id := 1; c_parse := PSyntax; c_effs := [EOn 2; ELog 1 1 true; EAuth 1 1]; c_addrs := [AEph 1; ABusy] |} = true /\
+  harmless Reload (mkcfg 1 [ELog 1 1 true; EBad; EOn 2; EAuth 1 1] [AEph 1; ABusy]) = true /\
+  harmless Load (mkcfg 1 [EOn 1; EBad] [AEph 1]) = false /\
   harmless Sigusr1 (mkcfg 1 [EOn 2; EBad] [ABusy; AEph 1]) = true /\
   harmless Validate {| c_id := 1; c_parse := PSyntax; c_effs := [ELog 1 1 false]; c_addrs := [AEph 1; ABusy] |} = true /\
   fst (attempt Load 1 [] (mkcfg 1 [EBad] [AEph 1]) g0) = RErr.
